@@ -231,3 +231,17 @@ _R9_COND = (' (VLQ-FIELD-RESET, ACTIVE-CLEARED and NAME-SIBLING are conditional 
             'knows, reported as not decided otherwise; their seeded canaries in the thorough tier exclude a vacuous pass on the current tree.)')
 for _p in ('C06', 'C08', 'C12', 'C13'):
     CLAIMS[_p]['text'] += _R9_COND
+
+_R10_TAGGED = (' Round 10: TAGGED-OFFSET - the per-line column correction of ReplaceSource\'s streamer is a tagged value (value cell, tag cell), '
+               'found by role: "offset(line) = value if line == tag else 0". Decided for every path: the value is read (also inside `+=`) '
+               'only where `tag == line` is known (under the true edge of that test with neither side written since, or right after the pair '
+               'was re-pointed); the tag is never re-pointed while the value is carried over, and the value is never overwritten for a new '
+               'line without re-pointing the tag; the tag is compared only with lines in the coordinates it is assigned in (they depend on '
+               'the same line-offset cell); both arms of every tagged update add the same amount after linear normalisation, and an update '
+               'that exists only on the arm where the tag already names the line is reported (defect F16 found on the unchanged tree - a '
+               'deletion that joins two lines lost the column of the kept prefix - and fixed in /repo c8354f2). Conditional rule: reported as '
+               'not decided when no such pair of cells exists in the streamer. Decides this bookkeeping discipline only, NOT that the '
+               'amounts themselves are right.')
+for _p in ('C04', 'C11'):
+    CLAIMS[_p]['text'] += _R10_TAGGED
+    CLAIMS[_p]['technique'] += '; guard-dominance, pairing and arm-agreement analysis of the tagged column-correction cells (MIR, closure-captured cells)'
